@@ -14,6 +14,7 @@ pub mod c10;
 pub mod c11;
 pub mod c13;
 pub mod c14;
+pub mod c15;
 
 pub type MonFn = fn(&mut Ctx);
 
@@ -45,6 +46,10 @@ pub fn registry() -> Vec<(&'static str, &'static str, MonFn)> {
         ("c07_tiny", "C07", c07::tiny as MonFn),
         ("c10_scalar", "C10", c10::scalar as MonFn),
         ("c10_dd", "C10", c10::dd as MonFn),
+        ("c15_roundtrip", "C15", c15::c15_roundtrip as MonFn),
+        ("c15_malformed", "C15", c15::c15_malformed as MonFn),
+        ("c15_huge", "C15", c15::c15_huge as MonFn),
+        ("c15_case", "C15", c15::c15_case as MonFn),
         ("c02_pairs", "C02", c02::pairs as MonFn),
     ]
 }
